@@ -4,6 +4,7 @@ package c18
 import (
 	"bufio"
 	"bytes"
+	"context"
 	"encoding/json"
 	"errors"
 	"fmt"
@@ -280,6 +281,13 @@ type ICase struct {
 	BaseCtx  int      `json:"base_ctx"` // number of context fields on the base logger (spare capacity)
 	Reqs     []Req    `json:"reqs"`
 	Events   int      `json:"events_per_request"`
+	// SharedCtx: every request's context derives from one base context that already carries a
+	// logger (http.Server.BaseContext returning logger.WithContext(ctx)); that logger must stay as it was
+	SharedCtx bool `json:"shared_base_context,omitempty"`
+	// MutedInner: a muted sub-route — NewHandler(disabled logger) followed by a field handler sits
+	// between the field handlers and the final handler: the final handler's events are dropped and
+	// what the inner handlers add never reaches the outer logger
+	MutedInner bool `json:"muted_inner_handler,omitempty"`
 }
 
 type syncBuf struct {
@@ -359,6 +367,10 @@ func runIsolation(c *ICase) (string, bool) {
 		w.Write([]byte(me))
 	})
 	var h http.Handler = final
+	if c.MutedInner {
+		h = hlog.MethodHandler("innermethod")(h)
+		h = hlog.NewHandler(zerolog.New(out).Level(zerolog.Disabled))(h)
+	}
 	for i := len(c.Handlers) - 1; i >= 0; i-- {
 		h = handlerTable[c.Handlers[i]]()(h)
 	}
@@ -366,6 +378,9 @@ func runIsolation(c *ICase) (string, bool) {
 		hlog.FromRequest(r).Info().Str("me", r.Header.Get("X-Me")).Int("status", status).Int("size", size).Msg("access")
 	})(h)
 	h = hlog.NewHandler(base)(h)
+	var sharedOut bytes.Buffer
+	sharedLogger := zerolog.New(&sharedOut).With().Str("shared", "base").Logger()
+	sharedCtx := sharedLogger.WithContext(context.Background())
 	var wg sync.WaitGroup
 	respID := map[string]string{}
 	preset := map[string]string{}
@@ -382,6 +397,9 @@ func runIsolation(c *ICase) (string, bool) {
 			r.Header.Set("Referer", rq.Referer)
 			r.Header.Set("X-Custom", rq.Custom)
 			r.Header.Set("X-Me", rq.ID)
+			if c.SharedCtx {
+				r = r.WithContext(sharedCtx)
+			}
 			if rq.Preset {
 				id := xid.New()
 				rmu.Lock()
@@ -399,6 +417,12 @@ func runIsolation(c *ICase) (string, bool) {
 	arrived.Wait()
 	close(release)
 	wg.Wait()
+	if c.SharedCtx {
+		zerolog.Ctx(sharedCtx).Info().Msg("probe")
+		if got, want := sharedOut.String(), "{\"level\":\"info\",\"shared\":\"base\",\"message\":\"probe\"}\n"; got != want {
+			return fmt.Sprintf("the logger carried by the requests' shared base context changed: it now emits %q, want %q", got, want), overlapped >= 2
+		}
+	}
 	after := probe()
 	if before != after {
 		return fmt.Sprintf("the logger passed to NewHandler changed: probe event before %q, after %q", before, after), overlapped >= 2
@@ -501,8 +525,12 @@ func runIsolation(c *ICase) (string, bool) {
 		}
 	}
 	for _, r := range c.Reqs {
-		if counts[r.ID] != c.Events+1 {
-			return fmt.Sprintf("request %s: %d events, want %d", r.ID, counts[r.ID], c.Events+1), overlapped >= 2
+		wantN := c.Events + 1
+		if c.MutedInner {
+			wantN = 1 // the final handler logs through the muted inner logger: only the access event remains
+		}
+		if counts[r.ID] != wantN {
+			return fmt.Sprintf("request %s: %d events, want %d", r.ID, counts[r.ID], wantN), overlapped >= 2
 		}
 	}
 	return "", overlapped >= 2
@@ -510,7 +538,8 @@ func runIsolation(c *ICase) (string, bool) {
 
 func genICase(rt *rapid.T, maxReqs int) *ICase {
 	names := []string{"url", "method", "request", "remote", "ip", "ua", "referer", "proto", "httpver", "custom", "host", "hostnp", "reqid", "etag", "resphdr"}
-	c := &ICase{BaseCtx: rapid.IntRange(0, 3).Draw(rt, "basectx"), Events: rapid.IntRange(1, 3).Draw(rt, "events")}
+	c := &ICase{BaseCtx: rapid.IntRange(0, 3).Draw(rt, "basectx"), Events: rapid.IntRange(1, 3).Draw(rt, "events"),
+		SharedCtx: rapid.IntRange(0, 2).Draw(rt, "sharedctx") == 0, MutedInner: rapid.IntRange(0, 3).Draw(rt, "muted") == 0}
 	perm := rapid.Permutation(names).Draw(rt, "perm")
 	c.Handlers = perm[:rapid.IntRange(1, len(perm)).Draw(rt, "nh")]
 	n := rapid.IntRange(2, maxReqs).Draw(rt, "nreq")
